@@ -55,7 +55,10 @@ enum Status {
     /// Stop execution early if breakpoint or `HALT` is reached.
     ///
     /// Return address is necessary to support nested subroutine calls.
-    StepOver { return_addr: u16 },
+    ///
+    /// Call depth (calls minus returns executed since the command) is necessary to support
+    /// recursive calls, which reach the return address before the stepped-over call returns.
+    StepOver { return_addr: u16, depth: u16 },
     /// Execute `count` instructions.
     ///
     /// Stop execution early if breakpoint or `HALT` is reached.
@@ -194,6 +197,9 @@ impl Debugger {
 
         // `HALT` and breakpoints should be already handled (above)
         loop {
+            // Commands such as `goto` or `reset` may have moved the PC since the last iteration
+            let instr = SignificantInstr::try_from(state.mem(state.pc())).ok();
+
             match &mut self.status {
                 Status::WaitForAction => {
                     // Continue loop until action is given
@@ -202,8 +208,8 @@ impl Debugger {
                     }
                 }
 
-                Status::StepOver { return_addr } => {
-                    if state.pc() == *return_addr {
+                Status::StepOver { return_addr, depth } => {
+                    if state.pc() == *return_addr && *depth == 0 {
                         // If subroutine was excecuted (for `JSR|JSRR|CALL` + `RET`|`RETS`)
                         // As opposed to a single instruction
                         if self.instruction_count > 1 {
@@ -216,6 +222,12 @@ impl Debugger {
                         }
                         self.status = Status::WaitForAction;
                         continue;
+                    }
+                    // Track depth of the instruction about to be executed
+                    match instr {
+                        Some(SignificantInstr::Call) => *depth = depth.saturating_add(1),
+                        Some(SignificantInstr::Return) => *depth = depth.saturating_sub(1),
+                        _ => (),
                     }
                     return Action::Proceed;
                 }
@@ -368,6 +380,7 @@ impl Debugger {
                 self.status = if instr == Some(SignificantInstr::Call) {
                     Status::StepOver {
                         return_addr: state.pc().wrapping_add(1),
+                        depth: 0,
                     }
                 } else {
                     // Any other instruction is simply executed, wherever it leaves the PC
